@@ -22,18 +22,25 @@ LEVEL_TEXT = ("Theorems (Props/C04.v) for all shapes, all seven coarsening patte
               "children along it, identity in non-coarsened directions) and nothing else; the regenerated "
               "restrict_weights equal h[2I-2]/(h[2I-2]+h[2I-1]) and h[2I+1]/(h[2I]+h[2I+1]) on a tensor mesh; "
               "these are exactly the linear-interpolation weights of the prolongation (entrywise transpose), "
-              "which sum to one; coarse parameters are sums of their children.")
+              "which sum to one; coarse parameters are sums of their children. Summed identity (Proofs/"
+              "RestrictAdjoint.v): for every pattern, every shape with >= 2 coarse nodes per direction, every fine "
+              "residual r and every coarse field g with zero tangential boundary values, <R r, g> over interior "
+              "coarse edges = <r, P g> over interior fine edges, P g being what the prolongation adds (three "
+              "theorems, one per edge direction; 1-D adjoint pairs + generic three-fold tensor lemma). The coarse "
+              "parameters have the same total as the fine ones for every pattern. Over the reals with positive "
+              "widths all interpolation weights and all weights computed by restrict_weights lie in [0,1].")
 LEVEL_NOTE = ("Trusted: Coq kernel, py2coq translator (validated against the compiled kernels on exact rationals). "
               "Model/Prolong.v's prolongation (RegularGridProlongator + slicing) and model restriction are hand "
-              "models tied by correspondence only. The GLOBAL inner-product identity <R r, c> = <r, P c> is "
-              "proved entrywise (stencil = tensor of 1-D maps, 1-D weights transposed), not yet as a summed "
-              "identity; non-negativity of weights needs an ordered field and is checked by the searcher. "
+              "models tied by correspondence only. The two sign theorems are over Coq's axiomatised reals "
+              "(ClassicalDedekindReals.sig_forall_dec, functional_extensionality_dep); everything else is closed. "
               "Mesh hypotheses (nodes/centres/coarse grid relations) are checked against emg3d's mesh objects "
               "in every correspondence case.")
 TECHNIQUE = "Coq proof (field/ring/lia, HO-unified loop nests) over kernels regenerated from source + correspondence"
 PROPS = 'Props/C04.v'
 GEN = ['CoreRestrict']
-TRUSTED = ["hand model of prolongation / RegularGridProlongator and of _restrict_model_parameters (Model/Prolong.v)"]
+TRUSTED = ["hand model of prolongation / RegularGridProlongator and of _restrict_model_parameters (Model/Prolong.v)",
+           "standard-library axioms of the reals (sig_forall_dec, functional_extensionality_dep) under the two "
+           "sign theorems only"]
 ASSUMES = ["exact field arithmetic instead of IEEE rounding"]
 
 
